@@ -342,6 +342,27 @@ pub fn run(r: &mut Rec) {
             from_int(r, 0, Some(v));
         }
     }
+    // values whose low N bits look like a primitive's MIN / MAX / 0 under non-zero higher bits (a range test that looks
+    // at trailing zeros, the low digit or the bit count alone accepts them)
+    for n in [8u32, 16, 32, 64, 128] {
+        if !r.case(&format!("low pattern {}", n)) {
+            continue;
+        }
+        let one = BigUint::from(1u32);
+        let lows = [BigUint::from(0u32), one.clone(), &one << (n - 1), (&one << (n - 1)) - 1u32, (&one << n) - 1u32, (&one << (n - 1)) + 1u32];
+        let his = [one.clone(), BigUint::from(2u32), BigUint::from(3u32), BigUint::from(u64::MAX), &one << 100u32, (&one << 936u32) + 1u32];
+        for hi in &his {
+            for lo in &lows {
+                let v = (hi << n) | lo;
+                let d = v.verif_raw().to_vec();
+                load_u(r, 0, &d);
+                for s in [Sign::Plus, Sign::Minus] {
+                    load_i_from_u(r, 0, s, 0);
+                    to_prims(r);
+                }
+            }
+        }
+    }
     // floats -> big
     if r.case("from floats") {
         let mut rng = r.case_rng();
